@@ -226,6 +226,14 @@ pub fn plan(tier: Tier) -> Plan {
             }));
         }
     }
+    for part in 0..16usize {
+        p.units.push(unit("key-length-ladder-2..1100-(finite-family)", format!("length ladder part {}", part), move |st, rep| {
+            for (_, kvs) in crate::model::key_length_ladder(part, 16) {
+                if kvs.iter().any(|x| x.0.len() > 1101) { continue; }
+                do_case(&kvs, (10_000, 2), st, rep);
+            }
+        }));
+    }
     let corpora: Vec<&'static str> = if thorough { vec!["words-10000", "wiki-urls-10000", "words-100000"] } else { vec!["words-10000", "wiki-urls-10000"] };
     for c in corpora {
         p.units.push(unit("corpora-sharing-ratio", format!("corpus {}", c), move |st, rep| {
